@@ -257,9 +257,19 @@ def leafUnsupported (st : State) (t : Table) (l : Leaf) : Bool :=
 
 /-- the reference regex engine is quadratic in the pattern length on repetitive texts: patterns beyond 120
     characters are outside the compared input class -/
+def valTooLong : Val → Bool
+  | .s v => v.length > 400
+  | .sl v => v.any (·.length > 400)
+  | .cv _ vs => vs.any (·.length > 400)
+  | _ => false
+
 def longRegex (st : State) (text : String) : Bool :=
   match parseRequest st.schema { optimize := false, q := Quirks.none } text with
-  | .ok req => (requestLeaves req).any fun l => l.rx.isSome && l.sval.length > 120
+  | .ok req =>
+    let leaves := requestLeaves req
+    leaves.any (fun l => l.rx.isSome && l.sval.length > 120) ||
+    -- a repetition matched against a very long text makes the derivative terms grow with the text
+    (leaves.any (fun l => l.rx.isSome) && st.ds.backends.any fun b => b.tables.any fun (_, rows) => rows.any fun r => r.cells.any fun (_, v) => valTooLong v)
   | .error _ => false
 
 def handleQuery (st : State) (j : Json) : Json :=
@@ -278,7 +288,7 @@ def handleQuery (st : State) (j : Json) : Json :=
       if t.passthrough || t.virt == .columns then Json.mkObj (base ++ [("parse", .str "unsupported"), ("why", .str "table not modelled")])
       else if !req.waitTrigger.isEmpty || !req.waitCondition.isEmpty then Json.mkObj (base ++ [("parse", .str "unsupported"), ("why", .str "wait headers")])
       else if (requestLeaves req).any (leafUnsupported st t) then Json.mkObj (base ++ [("parse", .str "unsupported"), ("why", .str "filter column not modelled")])
-      else if longRegex st text then Json.mkObj (base ++ [("parse", .str "unsupported"), ("why", .str "regular expression too long for the reference engine")])
+      else if longRegex st text then Json.mkObj (base ++ [("parse", .str "unsupported"), ("why", .str "regular expression or matched text too long for the reference engine")])
       else
       match usesUnsupportedColumn st t req with
       | some c => Json.mkObj (base ++ [("parse", .str "unsupported"), ("why", .str s!"column {c} not modelled")])
